@@ -15,7 +15,8 @@ import AGV.Model.Hostile
     such documents, the pinned one parses them when the stack happens to suffice).
     A `(timeout)` is the listed fragment-bomb finding iff the family is `fragbomb`, executed,
     with `N ≥ bombFloor`.
-  * `doc (lit …)`, `body`, `qs`, `ws` cases: the predicate only; an `(abort …)` is the listed
+  * `doc (lit …)`, `body`, `qs`, `ws` cases: the predicate only; a panic inside
+    src/types/upload.rs on a payload that carries the internal marker is the listed upload finding; an `(abort …)` is the listed
     stack-overflow finding iff the text nests brackets `≥ abortFloor` deep (`nestingDepth` for a
     document, `rawDepth` — brackets inside strings included — for transport payloads, which carry
     the document inside JSON / percent encoding).
@@ -61,9 +62,22 @@ def ansAtom : Ans → String
 
 def specText : String := "ok | err (never panic / abort / timeout)"
 
-def predicateOnly (impl : Sexp) (implS : String) (deepAllowed : Bool) : JudgeOut :=
+def isUploadPanic : Sexp → Bool
+  | .list [.atom "panic", .str f] => f = "src/types/upload.rs".toList
+  | _ => false
+
+def hasMarker : List Char → Bool
+  | [] => false
+  | c :: r => (AGV.Model.UploadBind.stripPrefix marker (c :: r)).isSome || hasMarker r
+
+/-- `markerAllowed`: the payload carries the internal upload marker and an upload toggle is
+    listed — a panic inside src/types/upload.rs is then that finding reached through this
+    entry point (the `markers` stream predicts it exactly; here it is only attributed). -/
+def predicateOnly (D : Defects) (impl : Sexp) (implS : String) (deepAllowed markerPresent : Bool) : JudgeOut :=
   if safe impl then .ok
   else if isAbort impl && deepAllowed then .known idDeep implS specText
+  else if isUploadPanic impl && markerPresent && D.parseUnwrap then .known idParse implS specText
+  else if isUploadPanic impl && markerPresent && D.valueIndex then .known idValue implS specText
   else .viol "ok | err" specText
 
 def judge (known : List String) (case impl : String) : JudgeOut :=
@@ -96,7 +110,7 @@ def judge (known : List String) (case impl : String) : JudgeOut :=
       else if some impl = expected || some impl = repaired then .ok
       else .tie modelS specText
     | .list [.atom "doc", .atom _, .list [.atom "lit", .str t]] =>
-      predicateOnly i impl (D.noNestingLimit && nestingDepth t ≥ abortFloor)
+      predicateOnly D i impl (D.noNestingLimit && nestingDepth t ≥ abortFloor) (hasMarker t)
     | .list [.atom "calib", .atom _, .atom _] =>
       match i with
       | .list [.atom "threshold", .atom "none"] => .ok
@@ -105,12 +119,15 @@ def judge (known : List String) (case impl : String) : JudgeOut :=
         else .viol "(threshold none)" "(threshold none)"
       | _ => .viol "(threshold none)" "(threshold none)"
     | .list [.atom "body", _, .str b, .atom _] =>
-      predicateOnly i impl (D.noNestingLimit && rawDepth b ≥ abortFloor)
-    | .list [.atom "qs", .str b] => predicateOnly i impl (D.noNestingLimit && rawDepth b ≥ abortFloor)
+      predicateOnly D i impl (D.noNestingLimit && rawDepth b ≥ abortFloor) (hasMarker b)
+    | .list [.atom "qs", .str b] => predicateOnly D i impl (D.noNestingLimit && rawDepth b ≥ abortFloor) (hasMarker b)
     | .list [.atom "ws", .atom _, .list frames] =>
-      predicateOnly i impl (D.noNestingLimit && frames.any (fun fr =>
+      predicateOnly D i impl (D.noNestingLimit && frames.any (fun fr =>
         match fr with
         | .str b => rawDepth b ≥ abortFloor
+        | _ => false)) (frames.any (fun fr =>
+        match fr with
+        | .str b => hasMarker b
         | _ => false))
     | _ => .viol "bad-case" "bad-case"
   | _, _ => .viol "unparsable" "unparsable"
